@@ -1,6 +1,5 @@
 use std::collections::HashMap;
 
-use quote::{format_ident, quote};
 use syn::{Data, DeriveInput, Field, Fields, Ident, Meta, Path, Type};
 
 use super::{
